@@ -346,6 +346,11 @@ func (s *Sim) cbAction(t *txn, o *ObsInst, oi int, act int, h ecs.Entity, ent *E
 			}
 		}
 	case CbQuery:
+		if s.lockDepth >= 62 {
+			// (nearly) all 64 lock bits are taken by held queries; a query from inside the
+			// callback would legitimately be the 65th
+			return
+		}
 		f := ecs.NewFilter0(s.W)
 		q := f.Query()
 		cnt, seen := 0, 0
